@@ -174,6 +174,7 @@ func (x *Exec) writeField(st *State, obj Val, field string, v Val) bool {
 				name := fieldComp(n, field)
 				c := x.comp(st, name, arrayOf(x.w.sortOf(f.Type())))
 				x.setComp(st, name, Val{T: app("store", c.T, obj.T, v.T), S: c.S})
+				st.wrote(name, obj.T, "true")
 				return true
 			}
 		}
@@ -182,6 +183,7 @@ func (x *Exec) writeField(st *State, obj Val, field string, v Val) bool {
 		name := "g" + fieldComp(n, field)
 		c := x.comp(st, name, arrayOf(g.Sort))
 		x.setComp(st, name, Val{T: app("store", c.T, obj.T, v.T), S: c.S})
+		st.wrote(name, obj.T, "true")
 		return true
 	}
 	return false
@@ -274,6 +276,8 @@ func (x *Exec) mapWrite(st *State, m Val, k string, nv Val) {
 	}
 	x.setComp(st, "mdom_"+sortTag(vs), Val{T: app("store", dom.T, m.T, nd), S: dom.S})
 	x.setComp(st, "mval_"+sortTag(vs), Val{T: app("store", val.T, m.T, nvv), S: val.S})
+	st.wrote("mdom_"+sortTag(vs), m.T, "true")
+	st.wrote("mval_"+sortTag(vs), m.T, "true")
 }
 
 func (x *Exec) mapDelete(st *State, m Val, k string) {
@@ -286,6 +290,7 @@ func (x *Exec) mapDelete(st *State, m Val, k string) {
 		st.assume(app(">=", app("msum", d, v), oldc))
 	}
 	x.setComp(st, "mdom_"+sortTag(vs), Val{T: app("store", dom.T, m.T, nd), S: dom.S})
+	st.wrote("mdom_"+sortTag(vs), m.T, "true")
 }
 
 func (x *Exec) elemSort(s Val) (string, types.Type) {
@@ -858,4 +863,5 @@ func (x *Exec) sliceWrite(st *State, n ast.Node, s Val, i string, v Val) {
 	x.heapWriteHook(st, n, ref)
 	inner := app("store", app("select", a.T, ref), app("+", app("sl_off", s.T), i), v.T)
 	x.setComp(st, "arr_"+sortTag(es), Val{T: app("store", a.T, ref, inner), S: a.S})
+	st.wrote("arr_"+sortTag(es), ref, "true")
 }
